@@ -25,6 +25,7 @@ type pCond struct {
 	K    string `json:"k,omitempty"`
 	S    string `json:"s,omitempty"`
 	N    int    `json:"n,omitempty"`
+	R    string `json:"r,omitempty"` // (kind tmpl) what the template text S renders to over the case's data
 }
 
 type pOp struct {
@@ -94,8 +95,40 @@ func (c pCond) yaml() (string, bool) {
 		return c.S, true
 	case "padvar": // a condition that renders a data key whose value carries blanks around the boolean text
 		return "{{ ." + c.K + " }}", true
+	case "tmpl": // a condition over data no action writes (c12Extra)
+		return c.S, true
 	}
 	return "", false
+}
+
+// data no operation writes: a float with a whole value, a float with a fraction, an integer, and a flag 34 mappings deep
+func c12Extra() map[string]any {
+	var deep any = map[string]any{"flag": "on", "n": 3}
+	for i := 34; i >= 2; i-- {
+		deep = map[string]any{fmt.Sprint("l", i): deep}
+	}
+	return map[string]any{"ratio": 2.0, "share": 0.75, "count": 3, "nest": deep}
+}
+
+var c12DeepPath = func() string {
+	p := ".nest"
+	for i := 2; i <= 34; i++ {
+		p += fmt.Sprint(".l", i)
+	}
+	return p
+}()
+
+// conditions over that data, with what each renders to
+var c12ExtraConds = []pCond{
+	{Kind: "tmpl", S: "{{ lt .ratio 2.5 }}", R: "true"},
+	{Kind: "tmpl", S: "{{ gt .ratio 2.5 }}", R: "false"},
+	{Kind: "tmpl", S: "{{ eq .ratio 2.0 }}", R: "true"},
+	{Kind: "tmpl", S: "{{ lt .share .ratio }}", R: "true"},
+	{Kind: "tmpl", S: "{{ eq .count 3 }}", R: "true"},
+	{Kind: "tmpl", S: "{{ eq " + c12DeepPath + ".flag \"on\" }}", R: "true"},
+	{Kind: "tmpl", S: "{{ eq " + c12DeepPath + ".flag \"off\" }}", R: "false"},
+	{Kind: "tmpl", S: "{{ if " + c12DeepPath + ".flag }}true{{ else }}false{{ end }}", R: "true"},
+	{Kind: "tmpl", S: "{{ eq " + c12DeepPath + ".n 3 }}", R: "true"},
 }
 
 // the padded boolean texts the data of the C12 cases holds (never written by any operation)
@@ -223,6 +256,8 @@ func (c pCond) gallina() string {
 		return "(CText " + gStr(c.S) + ")"
 	case "padvar": // what the template renders to is that key's text: blanks are trimmed from the RENDERED text
 		return "(CText " + gStr(c12Pads[c.K]) + ")"
+	case "tmpl":
+		return "(CText " + gStr(c.R) + ")"
 	}
 	return "CNone"
 }
@@ -552,6 +587,10 @@ func genC12Act(r *rand.Rand, depth, maxDepth, maxFan int, name string, order int
 		if r.Intn(4) == 0 {
 			a.When = pCond{Kind: "bad"}
 		}
+	case 5:
+		if r.Intn(2) == 0 {
+			a.When = c12ExtraConds[r.Intn(len(c12ExtraConds))]
+		}
 	}
 	if r.Intn(3) != 0 {
 		a.Ops = append(a.Ops, pOp{Kind: "set", Data: map[string]any{"k" + fmt.Sprint(r.Intn(4)): name}})
@@ -594,6 +633,9 @@ func treeStats(a *pAct) (siblings int, falseOrAbort bool) {
 		siblings = len(a.Children)
 	}
 	if (a.When.Kind == "const" && !a.When.B) || a.When.Kind == "bad" {
+		falseOrAbort = true
+	}
+	if a.When.Kind == "tmpl" && a.When.R != "true" {
 		falseOrAbort = true
 	}
 	if a.When.Kind == "text" {
